@@ -22,7 +22,7 @@
 //! score = (D − P)/D) so that threshold comparisons are decided in exact
 //! arithmetic; the f64 value is only used for the 1e-9 score comparison.
 
-use crate::case::{Case, Event, Mode, Spec, Stance, N_ACTORS, N_EVIDENCE};
+use crate::case::{Case, Event, Mode, N_ACTORS, N_EVIDENCE, Spec, Stance};
 use std::collections::BTreeSet;
 
 pub const UNSTATED_TENTHS: u8 = 5;
@@ -208,7 +208,11 @@ pub fn eligible(spec: &Spec, life: Life, at: usize, policy: &Policy) -> bool {
 }
 
 fn conf_tenths(spec: &Spec) -> u8 {
-    if spec.conf == 0 { UNSTATED_TENTHS } else { spec.conf }
+    if spec.conf == 0 {
+        UNSTATED_TENTHS
+    } else {
+        spec.conf
+    }
 }
 
 /// Connected components over actors ∪ evidence ids.
@@ -261,8 +265,14 @@ fn side(rows: &[(Spec, Life)], members: &BTreeSet<usize>) -> Side {
     }
 }
 
-pub fn classify(support: &Side, opposition: &Side, uncertain: &BTreeSet<usize>, policy: &Policy) -> Status {
-    let engaged = !support.groups.is_empty() || !opposition.groups.is_empty() || !uncertain.is_empty();
+pub fn classify(
+    support: &Side,
+    opposition: &Side,
+    uncertain: &BTreeSet<usize>,
+    policy: &Policy,
+) -> Status {
+    let engaged =
+        !support.groups.is_empty() || !opposition.groups.is_empty() || !uncertain.is_empty();
     if !engaged {
         return Status::Insufficient;
     }
@@ -280,7 +290,13 @@ pub fn classify(support: &Side, opposition: &Side, uncertain: &BTreeSet<usize>, 
 
 /// Projects the belief about value v0 (`about_rival == false`) or v1 of the
 /// case's subject after the first `upto` events.
-pub fn project(case: &Case, upto: usize, about_rival: bool, at: usize, policy: &Policy) -> Projection {
+pub fn project(
+    case: &Case,
+    upto: usize,
+    about_rival: bool,
+    at: usize,
+    policy: &Policy,
+) -> Projection {
     let rows = ledger(case, upto);
     let mut support = BTreeSet::new();
     let mut opposition = BTreeSet::new();
